@@ -7,8 +7,10 @@ derivative-bound pricing modules evaluated over the derivative's full simulated 
 (module.price() / module.delta() without arguments - what a listed hedge's pricer does) are NaN-free,
 and at the maturity column (and at every column of a flat market) the price equals the payoff that
 is then certain.  also the deltas there equal their limiting values (derivative of the certain payoff).
-NOT decided: the stand-alone function clauses not reached by simulated state (arbitrary arguments,
-rejection of negative arguments).
+(iii) rejection of negative time to maturity / volatility as an invariant probed along the history
+(also after a hedging run was aborted by a raising model - F8): a fixed set of calls with a negative
+argument must keep raising.
+NOT decided: the stand-alone function clauses for arbitrary arguments not reached by simulated state.
 """
 import copy
 
@@ -30,9 +32,62 @@ COMPONENTS = {"real": ["pfhedge.nn.functional bs_* functions through BlackSchole
 ASSUMPTIONS = ["price at expiry compared with the certain payoff within 1e-6 (float32) / 1e-12 (float64) relative to strike scale; paths whose "
                "terminal (resp. extreme) price is within 1e-6 relative of the strike are skipped for binaries",
                "stand-alone limit clauses of the property are not decided (partial claim)"]
-PROBES = ["volatility_changed_on_live_stock", "flat_market", "shocked_far_from_strike", "maturity_price_is_payoff", "bs_hedger", "ww_hedger", "bound_price", "bound_delta",
+PROBES = ["negative_argument_rejected", "hedging_run_aborted", "volatility_changed_on_live_stock", "flat_market", "shocked_far_from_strike", "maturity_price_is_payoff", "bs_hedger", "ww_hedger", "bound_price", "bound_delta",
           "listed_hedge_pl", "put", "cost_positive", "large_dt", "tiny_dt", "delta_limit_checked"]
 KINDS = ["EuropeanOption", "EuropeanBinaryOption", "AmericanBinaryOption", "LookbackOption"]
+
+
+REJECT_FORMS = ["d1_t_tensor", "d1_v_tensor", "d2_t_tensor", "d2_v_tensor", "d1_t_float", "d1_v_float", "d2_v_float", "d1_t_int",
+                "european_price_v", "european_delta_t", "binary_price_v", "binary_delta_t", "lookback_price_v", "american_price_v",
+                "module_price_t", "module_delta_v", "module_forward_v", "ww_forward_t"]
+
+
+def _reject_probe(form, d):
+    """a call with a negative time to maturity or volatility; must raise"""
+    import pfhedge.nn as pfn
+    import pfhedge.nn.functional as F
+    s = torch.tensor([0.1, 0.0, -0.1])
+    pos, neg_t, neg_v = torch.tensor(1.0), torch.tensor(-1.0), torch.tensor(-0.2)
+    vol = torch.tensor(0.2)
+    if form == "d1_t_tensor":
+        return F.d1(s, neg_t, vol)
+    if form == "d1_v_tensor":
+        return F.d1(s, pos, neg_v)
+    if form == "d2_t_tensor":
+        return F.d2(s, neg_t, vol)
+    if form == "d2_v_tensor":
+        return F.d2(s, pos, neg_v)
+    if form == "d1_t_float":
+        return F.d1(s, -1.0, 0.2)
+    if form == "d1_v_float":
+        return F.d1(s, 1.0, -0.2)
+    if form == "d2_v_float":
+        return F.d2(s, 1.0, -0.2)
+    if form == "d1_t_int":
+        return F.d1(s, -1, 0.2)
+    if form == "european_price_v":
+        return F.bs_european_price(s, pos, neg_v)
+    if form == "european_delta_t":
+        return F.bs_european_delta(s, neg_t, vol)
+    if form == "binary_price_v":
+        return F.bs_european_binary_price(s, pos, neg_v)
+    if form == "binary_delta_t":
+        return F.bs_european_binary_delta(s, neg_t, vol)
+    if form == "lookback_price_v":
+        return F.bs_lookback_price(s, s.clamp(min=0), pos, neg_v, 1.0)
+    if form == "american_price_v":
+        return F.bs_american_binary_price(s, s.clamp(min=0), pos, neg_v)
+    from pfhedge.instruments import BrownianStock, EuropeanOption
+    eo = EuropeanOption(BrownianStock())
+    if form == "module_price_t":
+        return pfn.BlackScholes(eo).price(s, neg_t.expand(3), vol.expand(3))
+    if form == "module_delta_v":
+        return pfn.BlackScholes(eo).delta(s, pos.expand(3), neg_v.expand(3))
+    if form == "module_forward_v":
+        return pfn.BlackScholes(eo)(torch.stack([s, torch.ones(3), -0.2 * torch.ones(3)], -1))
+    if form == "ww_forward_t":
+        return pfn.WhalleyWilmott(eo)(torch.stack([s, -torch.ones(3), 0.2 * torch.ones(3), torch.zeros(3)], -1))
+    raise ValueError(form)
 
 
 def generate(rng):
@@ -64,6 +119,12 @@ def generate(rng):
     world = {"primaries": [prim], "derivatives": [d, listed], "models": [], "criteria": [], "hedgers": []}
     ops = [{"op": "simulate", "n_paths": rng.npaths([1, 2, 4, 8]), "torch_seed": rng.seed31()}]
     for _ in range(rng.randint(2, 7)):
+        if rng.chance(0.25):
+            # F8: a hedging run is aborted (the model raises at its k-th forward) ... and negative arguments are still rejected
+            # afterwards, prices and hedges still total
+            ops.append({"op": "aborted_run", "model": rng.choice(["bs", "ww", "ww"]), "after": rng.randint(0, 3), "which": rng.choice(["hedge", "pl"])})
+        if rng.chance(0.3):
+            ops.append({"op": "reject_probe", "form": rng.choice(REJECT_FORMS)})
         k = rng.wchoice([("hedger", 5), ("bound", 4), ("shock", 2), ("listed_pl", 2), ("simulate", 1),
                          ("resigma", 3 if pk in ("BrownianStock", "LocalVolatilityStock") else 0)])
         if k == "resigma":
@@ -135,6 +196,45 @@ def _execute(program, stats, hist):
     dtv = program["world"]["primaries"][0]["params"]["dt"]
     shocked = False
     for op in program["ops"]:
+        if op.get("op") == "reject_probe":
+            stats.op("reject_probe")
+            seq = hist.seq
+            stats.checks += 1
+            try:
+                with torch.no_grad():
+                    out = _reject_probe(op["form"], world.derivatives["d0"])
+            except Exception:
+                stats.probe("negative_argument_rejected")
+                hist.add(op="reject_probe", form=op["form"], rejected=True)
+                continue
+            raise Violation(ID, "negative_argument_not_rejected", op["form"], {"returned": out}, seq)
+        if op.get("op") == "aborted_run":
+            stats.op("aborted_run")
+            d0_ = world.derivatives["d0"]
+            try:
+                p0.spot
+            except Exception:
+                continue
+            calls = [0]
+
+            def boom(mod, args, _after=op["after"]):
+                calls[0] += 1
+                if calls[0] > _after:
+                    raise RuntimeError("injected")
+            raised = False
+            try:
+                m_ = pfn.BlackScholes(d0_) if op["model"] == "bs" else pfn.WhalleyWilmott(d0_)
+                hd_ = pfn.Hedger(m_, m_.inputs())
+                hk = m_.register_forward_pre_hook(boom)
+                with torch.no_grad():
+                    (hd_.compute_hedge if op["which"] == "hedge" else hd_.compute_pl)(d0_)
+            except Exception:
+                raised = True
+            stats.fault("F8_callback_exception")
+            if raised:
+                stats.probe("hedging_run_aborted")
+            hist.add(op="aborted_run", raised=raised)
+            continue
         if op.get("op") == "resigma":
             stats.op("resigma")
             try:
